@@ -241,7 +241,7 @@ namespace
                         {
                             guarded_wait(lk, [&] { return a->done; });
                             // was the waiter woken by the notify, or only by its slice time-out?
-                            if (a->done && steady::now() - a->t_done > std::chrono::seconds(3)) { H->log.push_back({40}); }
+                            if (a->done && steady::now() - a->t_done > std::chrono::seconds(8)) { H->log.push_back({40}); }
                         }
                         H->inflight = nullptr;
                     }
@@ -574,7 +574,7 @@ namespace
             });
             {
                 std::unique_lock lk{h.m};
-                h.cv.wait_for(lk, std::chrono::seconds(40), [&] { return h.run_done || h.abort; });
+                h.cv.wait_for(lk, std::chrono::seconds(90), [&] { return h.run_done || h.abort; });
                 if (!h.run_done)
                 {
                     // the loop is stuck: give up on it
